@@ -274,6 +274,9 @@ def _view(client, t):
         "error": client.topic_errors.get(t),
         "parts": None if parts is None else list(parts),
         "leaders": {p: client.topics_to_brokers.get(TopicAndPartition(t, p)) for p in (parts or [])},
+        # every routing entry the cache holds for the topic, listed partition or not (a partition the topic has lost must not
+        # keep a leader: _get_leader_for_partition would route to it without ever re-resolving)
+        "routed": sorted(k.partition for k in client.topics_to_brokers if k.topic == t),
     }
 
 
@@ -321,6 +324,8 @@ def _merge(job):
                         if v["leaders"].get(p) != exp:
                             ok = False
                 ctx.check(ok, "covered-topics-mirror-the-response", "topic %s: view %r, response %r" % (t, v, tm))
+                extra = [p for p in v["routed"] if p not in (exp_parts or [])]
+                ctx.check(not extra, "covered-topics-mirror-the-response", "topic %s: the cache still routes partitions %r which the response does not list (response %r)" % (t, extra, tm))
                 ctx.check(client.metadata_error_for_topic(t) == tm.topic_error_code, "covered-topics-mirror-the-response", "metadata_error_for_topic(%s)" % t)
             else:
                 ctx.check(v == before[t], "other-topics-untouched", "topic %s changed from %r to %r" % (t, before[t], v))
